@@ -552,6 +552,24 @@ def one_bp_exon_locus(w, gid, chrom, p, strand):
     return g, p + 3300
 
 
+def two_exon_alt_polya_locus(w, gid, chrom, p, strand):
+    """Unannotated TWO-exon isoform with two well-supported polyA sites 300 bp apart (8 tailed reads each)."""
+    ex = [(p, p + 400), (p + 1200, p + 1700)]
+    if strand == "+":
+        a, b = [ex[0], ex[1]], [ex[0], (ex[1][0], ex[1][1] + 300)]
+    else:
+        a, b = [ex[0], ex[1]], [(ex[0][0] - 300, ex[0][1]), ex[1]]
+    g = Gene(gid, chrom, strand)
+    g.hidden.append(Transcript(gid + ".h1", gid, chrom, strand, a, False, "two-exon-two-polya-sites"))
+    w.plant_sites(chrom, g.hidden[0].introns[0], strand)
+    w.genes.append(g)
+    tail = {"polya": 30} if strand == "+" else {"polyt": 30}
+    for k in range(8):
+        for e in (a, b):
+            w.make_read(chrom, list(e), flag=0 if strand == "+" else 16, truth={"src": gid + ".h1", "class": "two-exon-alt-polya", "annotated": False}, **tail)
+    return g, p + 2000
+
+
 def lowmapq_two_exon_locus(w, gid, chrom, p, strand):
     """Unannotated two-exon isoform: 4 full-length tailed reads with MAPQ 60 and 12 unspliced MAPQ-3 fragments inside its 3' exon
     (the fragments attach to the model later and pull its mean mapping quality down)."""
@@ -680,7 +698,7 @@ def gene_valley_locus(w, gid, chrom, p, strand):
 
 ZOO_ALL = ("ambiguous_only", "twins", "contested", "intronic", "apa", "alt_terminal", "shifted_site", "shared_chain", "same_coords",
            "one_bp_exon", "lowmapq_two_exon", "mono_only", "gap_gene", "gene_valley", "odd_chroms",
-           "near_site_novel", "low_cov_novel")
+           "near_site_novel", "low_cov_novel", "two_exon_alt_polya")
 ZOO_NO_TIES = tuple(z for z in ZOO_ALL if z != "twins")
 
 
@@ -781,6 +799,9 @@ def add_zoo(w, parts=ZOO_ALL):
         if "one_bp_exon" in parts and room(6500):
             one_bp_exon_locus(w, "Z1BP" + tag, chrom, _free_pos(w, chrom), "+-"[ci % 2])
             placed.add("one_bp_exon")
+        if "two_exon_alt_polya" in parts and room(6000):
+            two_exon_alt_polya_locus(w, "ZTP" + tag, chrom, _free_pos(w, chrom, 3000), "+-"[ci % 2])
+            placed.add("two_exon_alt_polya")
         if "lowmapq_two_exon" in parts and room(5000):
             lowmapq_two_exon_locus(w, "ZLQ" + tag, chrom, _free_pos(w, chrom), "+-"[(ci + 1) % 2])
             placed.add("lowmapq_two_exon")
